@@ -167,7 +167,7 @@ func scenarioCfg(cfg *scenCfg) int {
 	w.f = counter.VerifNewFile()
 	w.c = w.f.NewCounter("c")
 
-	kind := Pick(rnd, []string{"plain", "open", "rot", "rot", "ext", "ext", "grow", "grow"})
+	kind := Pick(rnd, []string{"plain", "open", "rot", "rot", "ext", "ext", "grow", "grow", "mix", "mix"})
 	if cfg != nil {
 		kind = cfg.kind
 		out.Note("systematic-" + kind)
@@ -191,7 +191,7 @@ func scenarioCfg(cfg *scenCfg) int {
 		w.f.Register(w.c)
 	} else {
 		w.f.Rotate1()
-		if kind == "ext" {
+		if kind == "ext" || kind == "mix" {
 			for i := 0; i < 3; i++ {
 				w.f.Lookup(strings.Repeat(string(rune('x'+i)), 4080))
 			}
@@ -244,8 +244,18 @@ func scenarioCfg(cfg *scenCfg) int {
 	case "ext":
 		specs = append(specs, tspec{"ext", 0})
 	case "grow":
-		if rnd.Chance(50) {
+		switch rnd.Intn(4) {
+		case 0:
 			specs = append(specs, tspec{"rot", 0})
+		case 1:
+			specs = append(specs, tspec{"ext", 0}) // whoever looks up first extends the file
+		}
+	case "mix":
+		// changers of both kinds: a rotation and one or two lookups of other
+		// (large) counters, of which the first one in a tight file extends it
+		specs = append(specs, tspec{"rot", 0}, tspec{"ext", 0})
+		if rnd.Chance(40) {
+			specs = append(specs, tspec{"ext", 0})
 		}
 	}
 	if cfg != nil {
@@ -413,7 +423,7 @@ func scenarioCfg(cfg *scenCfg) int {
 		status = "panic"
 		fmt.Fprintln(os.Stderr, panicked)
 	}
-	fields := []string{"conc", kind, status, U(init0.word), I(init0.ptr), I(init0.cur), U(init0.persisted), B(kind == "grow"), I(int64(faults)), I(int64(faultsNew)), I(int64(len(specs)))}
+	fields := []string{"conc", kind, status, U(init0.word), I(init0.ptr), I(init0.cur), U(init0.persisted), B(kind == "grow"), B(kind == "grow" || kind == "ext" || kind == "mix"), I(int64(faults)), I(int64(faultsNew)), I(int64(len(specs)))}
 	for _, sp := range specs {
 		fields = append(fields, sp.kind, U(sp.amt))
 	}
@@ -429,6 +439,125 @@ func scenarioCfg(cfg *scenCfg) int {
 	return nsteps
 }
 
+// multi: oracle-only scenarios OUTSIDE the single-counter model (no lock-step
+// comparison): several real counters with pending in-memory values and a first
+// open of an EXISTING counter file whose first page is full, so that the refresh
+// of one counter extends the file (a changer's own lookup growing the file, with
+// the cleanup of that growth refreshing the other counters).  Checked: every
+// call returns within the step budget, no panic, and after quiescence every
+// counter's persisted value is the sum of its increments with nothing pending.
+func multi() {
+	dir, err := os.MkdirTemp(root, "m")
+	if err != nil {
+		panic(err)
+	}
+	defer os.RemoveAll(dir)
+	telemetry.Default = telemetry.NewDir(dir)
+	os.MkdirAll(telemetry.Default.LocalDir(), 0777)
+	os.WriteFile(filepath.Join(telemetry.Default.LocalDir(), "weekends"), []byte("0\n"), 0666)
+	vatomic.ResetClosed()
+	now := time.Date(2024, 1, 3, 10, 0, 0, 0, time.UTC)
+	counter.CounterTime = func() time.Time { return now }
+	out.Note("multi-open-of-full-file")
+	// an earlier process filled the first page of this week's file
+	f0 := counter.VerifNewFile()
+	f0.Rotate1()
+	for i := 0; ; i++ {
+		room := 16384 - int(f0.CurLimit())
+		if room <= 32 {
+			break
+		}
+		n := room - 32 - 16
+		if n > 4080 {
+			n = 4080
+		}
+		f0.Lookup(strings.Repeat(string(rune('A'+i%26)), n))
+	}
+	fname := f0.CurFileName()
+	f0.Close()
+	// this process: several counters incremented before the file is opened
+	f := counter.VerifNewFile()
+	nc := 2 + rnd.Intn(3)
+	cs := make([]*counter.Counter, nc)
+	want := make([]uint64, nc)
+	for i := range cs {
+		cs[i] = f.NewCounter(fmt.Sprintf("m%d", i))
+		k := 1 + rnd.Intn(3)
+		cs[i].Add(int64(k))
+		want[i] += uint64(k)
+		f.Register(cs[i])
+	}
+	type th struct {
+		fn func()
+	}
+	var ths []th
+	ths = append(ths, th{func() { f.Rotate1() }})
+	for j := 0; j < 1+rnd.Intn(2); j++ {
+		i := rnd.Intn(nc)
+		k := uint64(1 + rnd.Intn(3))
+		want[i] += k
+		ths = append(ths, th{func() { cs[i].Add(int64(k)) }})
+	}
+	s := vsched.New(true)
+	defer vsched.Stop()
+	tids := make([]int, len(ths))
+	for i := range tids {
+		tids[i] = -1
+	}
+	budget := 6000
+	status := "ok"
+	last := -1
+	for {
+		var cand []int
+		for i := range ths {
+			if tids[i] < 0 || !s.Done(tids[i]) {
+				cand = append(cand, i)
+			}
+		}
+		if len(cand) == 0 {
+			break
+		}
+		if budget == 0 {
+			status = "hang"
+			break
+		}
+		budget--
+		i := cand[rnd.Intn(len(cand))]
+		if last >= 0 && rnd.Chance(70) && (tids[last] < 0 || !s.Done(tids[last])) {
+			i = last
+		}
+		last = i
+		var info vsched.Info
+		if tids[i] < 0 {
+			tids[i] = s.Go(ths[i].fn)
+			info = s.Last(tids[i])
+		} else {
+			info = s.Step(tids[i])
+		}
+		if info.Panic != "" {
+			status = "panic"
+			fmt.Fprintln(os.Stderr, info.Panic)
+			break
+		}
+	}
+	fields := []string{"multi", status, I(int64(nc))}
+	if status == "ok" {
+		data, _ := os.ReadFile(fname)
+		pf, perr := counter.Parse(fname, data)
+		for i := range cs {
+			var got uint64
+			if perr == nil {
+				got = pf.Count[fmt.Sprintf("m%d", i)]
+			}
+			fields = append(fields, U(want[i]), U(got), U(counter.VerifExtra(cs[i])))
+		}
+	}
+	out.Case(true, fields...)
+	f.Close()
+	vatomic.ResetClosed()
+	counter.VerifConcRelease()
+}
+
 // systematic: every schedule with at most k forced context switches, for a
 // few fixed small scenarios.
 func systematic(k int) {
@@ -440,6 +569,8 @@ func systematic(k int) {
 		{kind: "plain", withPtr: true, specs: []tspec{{"add", 1}, {"add", 2}, {"add", 3}}},
 		{kind: "grow", withPtr: false, specs: []tspec{{"add", 1}, {"add", 2}, {"add", 3}}},
 		{kind: "grow", withPtr: false, specs: []tspec{{"add", 1}, {"add", 2}, {"rot", 0}}},
+		{kind: "mix", withPtr: true, specs: []tspec{{"add", 1}, {"rot", 0}, {"ext", 0}}},
+		{kind: "mix", withPtr: false, specs: []tspec{{"add", 1}, {"ext", 0}, {"rot", 0}}},
 	}
 	for _, b := range base {
 		c := b
@@ -479,6 +610,9 @@ func main() {
 	counter.VerifConcInit()
 	for i := 0; i < n; i++ {
 		scenario()
+		if i%8 == 7 {
+			multi()
+		}
 	}
 	if os.Getenv("VERIF_TIER") == "thorough" {
 		systematic(2)
